@@ -48,7 +48,7 @@ PHASE_TOL = 1e-8
 
 
 def classes(tier):
-    return ["u3", "empty", "order", "mixed", "direct"]
+    return ["u3", "empty", "order", "mixed", "direct", "history"]
 
 
 # ----------------------------------------------------------------------------- views of library objects
@@ -770,6 +770,54 @@ def run_case(ctx):
         res = decompose_orquestra_circuit(circuit, rules)
         ctx.check("source-circuit-untouched", [_op_sig(o) for o in circuit.operations] == before,
                   lambda: f"the decomposed circuit's own operations changed: {_desc_circuit(circuit)}")
+        return
+
+    if cls == "history":
+        # ONE rule instance over several requests in one process: the same operation several times in one circuit
+        # (equal objects and the very same object), sibling operations that agree in name / parameters / qubits but
+        # not in what they are, the same circuit decomposed twice, the result decomposed again, results emptied by
+        # their owner in between.  Every call is judged by the hooks.
+        lib = U3GateToRotation()
+        n = rng.randint(1, 4)
+        base_ops = [rand_u3_op(rng, n, max_controls=2) for _ in range(rng.randint(1, 3))]
+        u = base_ops[0]
+        sibs = []
+        from orquestra.quantum.circuits import U3 as _U3
+
+        ang = tuple(u.gate.params) if len(u.gate.params) == 3 else tuple(rand_u3_angles(rng))
+        if n >= 2:  # same angles: plain, 1 control, controls on other qubits
+            sibs.append(_U3(*ang)(rng.randrange(n)))
+            sibs.append(_U3(*ang).controlled(1)(*GC.rand_qubits(rng, 2, n)))
+        sibs.append(_U3(ang[0], ang[2], ang[1])(rng.randrange(n)))
+        sibs.append(rand_other_op(rng, n))
+        circuits = []
+        for _ in range(rng.randint(2, 4)):
+            ops = []
+            for _k in range(rng.randint(2, 6)):
+                r = rng.random()
+                if r < 0.35:
+                    ops.append(rng.choice(base_ops))  # the very same object again
+                elif r < 0.55:
+                    o = rng.choice(base_ops)
+                    ops.append(o.gate(*o.qubit_indices))  # an equal operation, another object
+                elif r < 0.85:
+                    ops.append(rng.choice(sibs))
+                else:
+                    ops.append(rand_other_op(rng, n))
+            circuits.append(Circuit(ops, n_qubits=n))
+        circuits.append(circuits[0])
+        ctx.describe("history " + " | ".join(_desc_circuit(c) for c in circuits)[:900], True)
+        mon.note("history-cases")
+        for c in circuits:
+            res = decompose_orquestra_circuit(c, [lib])
+            if rng.random() < 0.5:
+                res.operations.clear()  # the caller owns the result
+                res = decompose_orquestra_circuit(c, [lib])
+            decompose_orquestra_circuit(res, [lib])  # nothing left to do the second time
+            if rng.random() < 0.4:
+                decompose_operations(OneShot(c.operations), [lib])
+            if rng.random() < 0.3:
+                decompose_orquestra_circuit(c, [])
         return
 
     hr = harness_rules(rng)
